@@ -562,17 +562,23 @@ impl<Db: Database> StorageManager<Db> {
         if self.is_transaction_active() {
             let transaction_records = self.transaction.get_users_states(usernames, flag);
             for (label, value_state) in transaction_records.into_iter() {
-                if let Some((epoch, _)) = data.get(&label) {
-                    // there is an existing DB record, check if we should updated it from the transaction log
-                    if let Some(updated_record) =
-                        Self::compare_db_and_transaction_records(*epoch, value_state, flag)
-                    {
-                        data.insert(label, (*epoch, updated_record.value));
+                // The database only returns the version (not the epoch) of its record. Versions of a
+                // label increase with its epochs, so the versions decide which record is newer
+                let take_transaction_value = match (data.get(&label), flag) {
+                    // there is no db-equivalent record, but there IS a record in the transaction log
+                    (None, _) => true,
+                    (Some(_), ValueStateRetrievalFlag::SpecificVersion(_))
+                    | (Some(_), ValueStateRetrievalFlag::SpecificEpoch(_)) => true,
+                    (Some((db_version, _)), ValueStateRetrievalFlag::LeqEpoch(_))
+                    | (Some((db_version, _)), ValueStateRetrievalFlag::MaxEpoch) => {
+                        value_state.version >= *db_version
                     }
-                } else {
-                    // there is no db-equivalent record, but there IS a record in the transaction log.
-                    // Take the transaction log value
-                    data.insert(label, (value_state.epoch, value_state.value));
+                    (Some((db_version, _)), ValueStateRetrievalFlag::MinEpoch) => {
+                        value_state.version <= *db_version
+                    }
+                };
+                if take_transaction_value {
+                    data.insert(label, (value_state.version, value_state.value));
                 }
             }
         }
